@@ -843,6 +843,10 @@ class C17(Prop):
                 sched, set_seed = build_sched(sd, names)
                 rec = run_case(c2, sched, set_seed=set_seed)
                 vs = self.judge_state(c2, rec, refs, state)
+                if state not in ('both', 'baton-thread') and rec.steps is not None and rec.steps <= 60 \
+                        and rec.outcomes and rec.outcomes[0][0] == 'error' and rec.outcomes[0][1] == 'RuntimeError':
+                    rec.fault_hits = dict(rec.fault_hits or {})
+                    rec.fault_hits['pool_fault_' + state] = rec.fault_hits.get('pool_fault_' + state, 0) + 1
                 if stats is not None:
                     stats.add_run(cd, rec, rec.max_pending >= 2 or state not in ('both', 'baton-thread'),
                                   sd.get('policy', 'fifo'),
